@@ -160,7 +160,11 @@ QString SentryFormatter::format(const LogMessage &lmsg)
     QJsonArray fingerprint;
     fingerprint.append(qtMsgTypeToSentryLevel(lmsg.type()));
     fingerprint.append(category.isEmpty() ? QStringLiteral("default") : category);
-    fingerprint.append(lmsg.message().left(100)); // First 100 chars of message
+    auto messageHead = lmsg.message().left(100); // First 100 chars of message
+    if (!messageHead.isEmpty() && messageHead.at(messageHead.size() - 1).isHighSurrogate()) {
+        messageHead.chop(1); // never cut a surrogate pair in half: the event must stay well-formed
+    }
+    fingerprint.append(messageHead);
     event[QStringLiteral("fingerprint")] = fingerprint;
 
     return QString::fromUtf8(QJsonDocument(event).toJson(QJsonDocument::Compact));
